@@ -139,8 +139,29 @@ fn copy_dir(src: &std::path::Path, dst: &std::path::Path) -> std::io::Result<()>
 
 fn build_fixture() -> Result<BTreeMap<String, Value>, String> {
     // the same fixture as C16's API part, reusing its valid bodies
-    crate::checks::c16::build_api_fixture_pub()
+    let b = crate::checks::c16::build_api_fixture_pub()?;
+    // ... plus recorded issues for two CAs that scoped callers may not read
+    // (the issues listing of a healthy instance is empty for everybody)
+    let mut w = crate::world::World::reopen(WorldCfg::default()).map_err(|e| e.to_string())?;
+    // "other" needs something to publish before its publisher can be missed
+    w.add_child_link("parent", "other", res("AS65009", "10.9.0.0/16", "")).map_err(|e| format!("fixture: parent for other: {e}"))?;
+    w.pump()?;
+    w.settle()?;
+    for x in ISSUE_CAS {
+        let o = w.apply(&crate::ops::Op::RemovePublisher { publisher: x.to_string() });
+        if !o.ok {
+            return Err(format!("fixture: remove publisher {x}: {:?}", o.err));
+        }
+        if w.krill.ca_manager().cas_repo_sync_single(&crate::world::ca(x), 0, &w.slow).is_ok() {
+            return Err(format!("fixture: repository sync of {x} succeeded without a publisher"));
+        }
+    }
+    let _ = w.pump();
+    Ok(b)
 }
+
+/// CAs of the fixture with a recorded (repository) issue.
+const ISSUE_CAS: [&str; 2] = ["other", "parent"];
 
 #[derive(Clone, Debug, serde::Serialize, serde::Deserialize)]
 struct Case {
@@ -355,6 +376,13 @@ pub fn run(tier: &Tier, _args: &[String]) -> i32 {
                         let v: Value = serde_json::from_slice(&reply.body).unwrap_or_default();
                         let case = Case { method: "GET".into(), path: "/api/v1/bulk/cas/issues".into(), template: "/api/v1/bulk/cas/issues (content)".into(), caller: cname.clone(), target_ca: "-".into(), expect_allowed: true, testbed };
                         if let Some(o) = v["cas"].as_object().or(v.as_object()) {
+                            if *admin {
+                                for c in ISSUE_CAS {
+                                    if !o.contains_key(c) {
+                                        results.push(json!({"machinery": format!("fixture: the admin's issues list does not show '{c}' (shown: {:?}); the listing check would be vacuous", o.keys().collect::<Vec<_>>())}));
+                                    }
+                                }
+                            }
                             for c in o.keys() {
                                 let may = *admin || role.map(|r| r.is_allowed("ca-read", Some(c))).unwrap_or(false);
                                 if !may && ["ca", "other", "parent", "testbed", "ta"].contains(&c.as_str()) {
